@@ -61,6 +61,7 @@ type gatedReader struct {
 	pos    int
 	n      int
 	failAt int
+	failed bool          // the injected fault was delivered
 	arrive chan struct{} // nil: free running
 	grant  chan struct{}
 }
@@ -73,6 +74,7 @@ func (g *gatedReader) Read(p []byte) (int, error) {
 		<-g.grant
 	}
 	if g.failAt >= 0 && g.n >= g.failAt {
+		g.failed = true
 		return 0, errInjected
 	}
 	g.n++
